@@ -24,6 +24,7 @@ LEVEL = "exploration"
 ALLOW = os.path.join(ROOT, "data", "c02_magnitude_or_ceil.json")
 
 SCALES = [1e3, 1e-3, -1.0]
+EXTREME = [1e20, 1e-20]
 SPELLINGS = ["kilo", "milli", "named"]
 
 
@@ -182,7 +183,28 @@ class FunctionCase:
             scale = max(abs(l), abs(r), terms_scale(rep))
             if abs(l - r) <= 1e-6 * scale or abs(l - r) <= mpmath.mpf("1e-300"):
                 return True
-            # backward / forward error: the nearest root of the residual in the output variable
+            # backward error: a sign change of the (real) residual within 1e-9 / 1e-12 relative of
+            # the output, on either side
+            try:
+                if outv.imag == 0:
+                    def res(x: Any) -> Any:
+                        lr = evaluate(x)
+                        d = lr[0] - lr[1]
+                        if abs(d.imag) > 1e-12 * abs(d):
+                            raise ValueError("complex residual")
+                        return d.real
+                    r0 = res(outv)
+                    for eps in ("1e-9", "1e-12"):
+                        for side in (1, -1):
+                            try:
+                                r1 = res(outv * (1 + side * mpmath.mpf(eps)))
+                            except ValueError:
+                                continue
+                            if r0 * r1 <= 0:
+                                return True
+            except Exception:
+                pass
+            # forward error: the nearest root of the residual in the output variable
             try:
                 f = lambda x: (lambda lr: lr[0] - lr[1])(evaluate(mpmath.mpmathify(x)))
                 root = mpmath.findroot(f, (outv, outv * (1 + mpmath.mpf("1e-7")) + mpmath.mpf(
@@ -202,6 +224,21 @@ class FunctionCase:
                 # complex magnitude: |x| where x solves the law
                 return self._abs_complex(sub, consts, out)
             return f"documented to return a magnitude of the solution but returned {out}"
+        if self.allow in ("floor", "ceil") and holds(out):
+            return ""  # large counts: the rounding is below the relative tolerance
+        if self.allow == "floor":
+            n = out
+            if n.imag != 0 or n.real != int(n.real):
+                return f"documented to return an integer count but returned {out}"
+            try:
+                a = evaluate(n)
+                b = evaluate(n + 1)
+                ra, rb = (a[0] - a[1]).real, (b[0] - b[1]).real
+            except Exception:
+                return ""
+            if ra == 0 or ra * rb < 0:
+                return ""
+            return f"returned {int(n.real)} but the law has no root in [{int(n.real)}, {int(n.real) + 1})"
         if self.allow == "ceil":
             n = out
             if n.imag != 0 or n.real != int(n.real):
@@ -258,8 +295,8 @@ def _dv(q: Any) -> dims.DimVec:
 def _sym(v: Any) -> Any:
     v = mpmath.mpmathify(v)
     if isinstance(v, mpmath.mpc) and v.imag != 0:
-        return sp.Float(str(v.real), 40) + sp.I * sp.Float(str(v.imag), 40)
-    return sp.Float(mpmath.nstr(v.real, 40), 40)
+        return sp.Float(mpmath.nstr(v.real, 80), 80) + sp.I * sp.Float(mpmath.nstr(v.imag, 80), 80)
+    return sp.Float(mpmath.nstr(v.real, 80), 80)
 
 
 def explore_function(fc: FunctionCase, bound: int) -> dict:
@@ -354,7 +391,7 @@ def explore_function(fc: FunctionCase, bound: int) -> dict:
             "scales": base_scales, "spellings": {}}))
     devs: list[tuple[str, str, Any]] = []
     for p in scalable:
-        for s in SCALES:
+        for s in (SCALES + [1e7, 1e-7] + EXTREME if bound > 1 else SCALES):
             if s < 0 and isinstance(p.decl, sp.Symbol) and (p.decl.is_positive or
                     p.decl.is_nonnegative):
                 continue  # the declared symbol is positive: a negative value is outside the domain
@@ -378,6 +415,12 @@ def explore_function(fc: FunctionCase, bound: int) -> dict:
     if spellable:
         for s in SPELLINGS:
             judge(dict(base_scales), {p.name: s for p in spellable}, f"all:{s}")
+    # all magnitudes rescaled together, including extreme scales (one deviation of the whole tuple)
+    quantities = [p for p in scalable if p.kind in ("quantity", "seq", "qvector")]
+    for g in EXTREME:
+        if quantities:
+            judge({**base_scales, **{p.name: base_scales.get(p.name, 1.0) * g for p in quantities}},
+                {}, f"all-quantities:x{g:g}")
     if not res["samples"]:
         res["samples"].append({"function": fc.key, "default_result": short(base_struct, 60),
             "mapped_to_law": fc.mapping is not None, "deviations": len(devs)})
